@@ -412,9 +412,18 @@ func TestVerif_C17Pipe(t *testing.T) {
 		if rng.Bool() {
 			cfg.WindowStart, cfg.WindowStop = time.Now().Add(3*time.Hour).Format("15:04"), time.Now().Add(5*time.Hour).Format("15:04")
 		}
+		lowDisk := idx%3 == 2
+		if lowDisk {
+			// not enough free space for motion recordings: the continuous recorder and test
+			// recordings are not gated by it and must be left alone
+			cfg.MinDiskMB = 2*availMB(scratch) + 1000
+		}
 		fileLen := cfg.MaxSecs*cam.FPS + 1
 		nf := fileLen * rng.Range(3, 6)
 		frames := genStream(rng, cam, 1, streamOpts{Frames: nf, MotionPct: rng.PickInt(0, 50, 100)})
+		if lowDisk {
+			frames = genStream(rng, cam, 1, streamOpts{Frames: nf, MotionPct: 100})
+		}
 		req1 := rng.Range(2, nf/3)
 		req2 := req1 + 21 + rng.Range(0, 10)
 		c.Case(idx, func() interface{} {
@@ -486,6 +495,9 @@ func TestVerif_C17Pipe(t *testing.T) {
 				return
 			}
 			c.Count("pipeline_runs", 1)
+			if lowDisk {
+				c.Count("pipeline_runs_with_low_disk", 1)
+			}
 			c.Count("pipeline_continuous_files", int64(len(cfiles)))
 			c.Count("pipeline_test_recordings", int64(found))
 			c.Nontrivial(vNewHash().U64(uint64(idx)).Int(len(cfiles)).Int(found).Sum())
